@@ -86,6 +86,15 @@ def _split_list(v: bytes):
     return [p.strip(b" \t") for p in v.split(b",")]
 
 
+def _big_int(digits: bytes, base: int = 10) -> int:
+    """int() without CPython's 4300-digit guard: any number with more than 18 significant digits is simply
+    'more than any stream holds'."""
+    d = digits.lstrip(b"0")
+    if len(d) > 18:
+        return 10 ** 30
+    return int(d or b"0", base)
+
+
 def parse_one_request(data: bytes, pos: int, limits: dict):
     """Parse one request starting at pos.  Returns (msg, next_pos, after) where
     after is None or ("DONT_CARE", reason) describing the rest of the stream.
@@ -205,7 +214,10 @@ def parse_one_request(data: bytes, pos: int, limits: dict):
         v = cls_[0]
         if not v or not all(c in DIG for c in v):
             raise Rej("bad_content_length")
-        length = int(v)
+        if len(v.lstrip(b"0")) > 19 or len(v) > 4300:
+            # beyond 2**63, or more digits than a bounded number conversion takes: refusing is as good as waiting
+            raise Dc("content_length_beyond_any_integer_type")
+        length = _big_int(v)
     if tes:
         if ver == (1, 0):
             raise Dc("te_on_http10")
@@ -263,7 +275,7 @@ def parse_one_request(data: bytes, pos: int, limits: dict):
                 raise Dc("bws_before_chunk_ext")
             if not size_b or not all(c in HEX for c in size_b):
                 raise Rej("bad_chunk_size")
-            size = int(size_b, 16)
+            size = _big_int(size_b, 16)
             p = q
             if size == 0:
                 break
